@@ -75,6 +75,8 @@ def fill(mfa, rng):
     for f in mfa.flows.values():
         n = f.values.size
         v = (k * 4096.0 + rng.permutation(n) * 0.25).reshape(f.dims.shape)
+        if rng.random() < 0.4:
+            v = v / 3.0 + 0.1  # not representable as short decimals: every one of the 17 significant digits matters
         if rng.random() < 0.5:
             f[...] = v
         else:
@@ -332,7 +334,7 @@ def check_csv(rec, fd, path, arr, snap, what, bad):
         return
     if not snap.letters:
         return
-    df = pd.read_csv(path)
+    df = pd.read_csv(path, float_precision="round_trip")  # exact parser: the text must determine the double exactly
     try:
         got = frame_to_map(df, list(snap.names))
         if got != array_map(snap):
